@@ -86,7 +86,12 @@ Fixpoint run_items (user del : bool) (sc : script) (items : list item) (removed 
   end.
 
 Definition run (f : flow) (user : bool) (sc : script) : outcome :=
-  run_items user (if user then f_del_user f else f_del_tmp f) sc (f_items f) false.
+  match first_failure sc (f_pre f) with
+  | Some e => mkOut (Uncaught e) (negb user)
+      (* the run ends before a temporary directory exists: nothing is left (o_removed = true);
+         a directory the user supplied is simply still there (o_removed = false) *)
+  | None => run_items user (if user then f_del_user f else f_del_tmp f) sc (f_items f) false
+  end.
 
 (* stage calls a run goes through before it enters a try whose finally removes the directory *)
 Fixpoint stages_before_fin (user : bool) (items : list item) : list stage :=
@@ -121,6 +126,8 @@ Fixpoint exec_order (user : bool) (items : list item) : list stage :=
   | Try body _ _ :: r => body_stages body ++ exec_order user r
   end.
 
+Definition flow_order (f : flow) (user : bool) : list stage := f_pre f ++ exec_order user (f_items f).
+
 Fixpoint first_fail (sc : script) (l : list stage) : option (stage * ecls) :=
   match l with
   | [] => None
@@ -154,5 +161,5 @@ Definition all_stages : list stage := [SInputs; SExtraParams; SConstraints; SBui
 Definition handled_classes : list ecls := [EValueError; ERepoInit; ENoCandidate; EMetadata; EOSError].
 (* the (stage, class) pairs among the handled classes that still end in a traceback *)
 Definition cli_traceback_pairs (user : bool) : list (stage * ecls) :=
-  filter (fun p => mem_stage (fst p) (exec_order user (f_items cli_flow)) && negb (cli_diagnosed user (fst p) (snd p)))
+  filter (fun p => mem_stage (fst p) (flow_order cli_flow user) && negb (cli_diagnosed user (fst p) (snd p)))
          (list_prod all_stages handled_classes).
